@@ -49,3 +49,50 @@ Proof.
   intro H. pose proof group_k_float_ok_b as Hb. rewrite forallb_forall in Hb.
   apply Z.eqb_eq, Hb, range_in. lia.
 Qed.
+
+(* ---- the general statement: no bound from a finite sweep ----
+   For 0 < x < 2^52 the scaling exponent s is at least 7 (x < 2^52, 100 >= 2^6), so one unit in the
+   last place of the quotient is at most 2^-7 while a non-integral x/100 is at least 1/100 away from
+   every integer: the rounded quotient m/2^s lies strictly between the same two integers as x/100
+   (and is exact when 100 | x), hence Ceil sees the same value. *)
+Lemma fdiv_ceil_100 x : 0 <= x < 2 ^ 52 -> fdiv_ceil x 100 = (x + 99) / 100.
+Proof.
+  intros [x0 xlt]. unfold fdiv_ceil.
+  destruct (Z.leb_spec x 0) as [xle|xpos].
+  - assert (x = 0) by lia. subst x. reflexivity.
+  - assert (Hl : Z.log2 x < 52) by (apply Z.log2_lt_pow2; lia).
+    change (Z.log2 100) with 6.
+    set (s0 := 52 - (Z.log2 x - 6)).
+    set (s := if x * 2 ^ s0 <? 2 ^ 52 * 100 then s0 + 1 else s0).
+    assert (Hs : 7 <= s) by (unfold s, s0; destruct (_ <? _); lia).
+    assert (HP : 128 <= 2 ^ s) by (change 128 with (2 ^ 7); apply Z.pow_le_mono_r; lia).
+    set (P := 2 ^ s) in *. clearbody P. clear s0 s Hs Hl.
+    set (c := (x + 99) / 100).
+    assert (Hc : 100 * (c - 1) < x <= 100 * c) by (unfold c; Z.div_mod_to_equations; lia).
+    clearbody c.
+    pose proof (Z.div_mod (x * P) 100 ltac:(lia)) as Hdm.
+    pose proof (Z.mod_pos_bound (x * P) 100 ltac:(lia)) as Hrem.
+    set (q0 := x * P / 100) in *. set (rem := (x * P) mod 100) in *. clearbody q0 rem.
+    (* the two products, linearised *)
+    assert (H1 : 100 * (P * (c - 1)) + P <= x * P) by nia.
+    assert (H2 : x * P <= 100 * (P * c)) by nia.
+    assert (Hb : P * c = P * (c - 1) + P) by ring.
+    set (a := P * (c - 1)) in *. set (b := P * c) in *. set (xp := x * P) in *.
+    assert (Hbdef : P * c = b) by reflexivity.
+    clearbody a b xp.
+    set (m := if (100 <? 2 * rem) || ((2 * rem =? 100) && Z.odd q0) then q0 + 1 else q0).
+    assert (Hm : a < m <= b).
+    { unfold m. destruct (Z.ltb_spec 100 (2 * rem)); cbn [orb]; cbv iota.
+      - lia.
+      - destruct (Z.eqb_spec (2 * rem) 100); cbn [andb]; [destruct (Z.odd q0)|]; cbv iota; lia. }
+    clearbody m.
+    symmetry. apply Z.div_unique with (r := m - 1 - a); lia.
+Qed.
+
+(* GetGroupK's float64 computation equals the integer ceiling for every n with 51 n < 2^52
+   (n below 8.8 * 10^13; int -> float64 conversion is exact in that range) *)
+Lemma group_k_float_general n : 0 <= n -> 51 * n < 2 ^ 52 -> group_k_float n = group_k n.
+Proof.
+  intros n0 nlt. unfold group_k_float, group_k, ssss_threshold.
+  rewrite fdiv_ceil_100 by lia. reflexivity.
+Qed.
